@@ -20,13 +20,13 @@ RULE = ("one run = one line (connected or stand-alone, vlevel 0-3) with 1-6 tag 
         "distinct (datatype, value digest, vlevel, path) tuples")
 PROBES = ["representable_roundtrip", "unrepresentable_reported", "declared_datatype", "default_datatype",
           "b_subtype_boundary", "connected_file_restart", "overwrite_same_tag", "set_rejected_at_level3",
-          "nonfinite_float", "string_with_control", "interleaved_edit", "set_none"]
+          "nonfinite_float", "string_with_control", "interleaved_edit", "set_none", "set_via_accessor", "header_add"]
 STUBS = ["disk: gfapy.gfa.open -> SimDisk"]
 
 BASE_LINES = {
     "gfa1": ["S\tA\tACGT", "L\tA\t+\tB\t-\t3M", "C\tA\t+\tB\t-\t2\t2M", "P\tp\tA+,B-\t3M", "H\tVN:Z:1.0"],
     "gfa2": ["S\tA\t4\tACGT", "E\te\tA+\tB-\t0\t2\t2\t4$\t2M", "G\tg\tA+\tB-\t10\t*", "F\tA\tr+\t0\t4$\t0\t4\t*",
-             "O\to\tA+ B-", "U\tu\tA B", "X\tfoo\tbar"],
+             "O\to\tA+ B-", "U\tu\tA B", "X\tfoo\tbar", "S\tA\t4\tACGT\tLN:Z:abc"],
 }
 INT_POOL = [0, 1, -1, 127, 128, -128, -129, 255, 256, 32767, 32768, -32768, -32769, 65535, 65536,
             2 ** 31 - 1, 2 ** 31, -2 ** 31, -2 ** 31 - 1, 2 ** 32 - 1, 2 ** 32, 10 ** 18]
@@ -37,7 +37,9 @@ def val_pool(rng):
     """(json-able value spec, kind) ; kind is the python class seen by gfapy"""
     k = rng.choice(["int", "int", "float", "str", "str", "char", "json", "intarr", "floatarr", "mixarr",
                     "numarray", "bytearray", "nonfinite", "ctrlstr", "emptystr", "emptybytes", "boollist", "bigint",
-                    "json_odd", "none"])
+                    "json_odd", "none", "bool"])
+    if k == "bool":
+        return rng.choice([True, False]), k
     if k == "boollist":
         return {"__t": "boollist", "v": rng.choice([[True, False], [1, True], [False]])}, k
     if k == "bigint":
@@ -218,6 +220,8 @@ def gen(streams, tier, i):
     vr = streams.get("values")
     ops = []
     names = ["xa", "xb", "zz", "Yq"]
+    if "\tLN:Z:" in base:
+        names = names + ["LN", "LN"]      # a custom tag with the name of an alias (LN -> slen)
     for _ in range(vr.randint(1, 6)):
         r = vr.random()
         if r < 0.75:
@@ -225,6 +229,11 @@ def gen(streams, tier, i):
             op = {"op": "set", "tag": vr.choice(names), "value": v, "kind": kind}
             if vr.random() < 0.35:
                 op["dtype"] = vr.choice("AifZJHB")
+            if vr.random() < 0.25:
+                op["via"] = "attr"       # line.<tag> = v
+            if base.startswith("H") and vr.random() < 0.4:
+                op["via"] = "hadd"       # header.add(tag, v): a further value of a multi-value tag
+                op["tag"] = vr.choice(names[:2])
             ops.append(op)
         elif r < 0.85:
             ops.append({"op": "delete", "tag": vr.choice(names)})
@@ -257,14 +266,38 @@ def run(scn, st):
             g = None
     acked = {}      # tag -> (python value, expected datatype, representable)
     mydt = {}       # the harness's own record of declared datatypes (forgotten when the tag is deleted)
+    fuzzy = set()
+    unk = set()
+    if "\tLN:Z:abc" in cfg["base"]:
+        acked["LN"] = ("abc", "Z", True)
+        mydt["LN"] = "Z"
     for n, op in enumerate(scn["ops"]):
         st.step()
         st.count("op." + op["op"])
+        if op.get("tag") == "LN" and "LN" not in acked:
+            # once the LN tag is gone the name is the alias of slen again: not a tag operation
+            continue
+        if op.get("tag") in fuzzy and op["op"] in ("set", "delete"):
+            # a multi-value header tag: single-value expectations do not apply (only the grammar oracle)
+            if op["op"] == "set":
+                core.call(line.add if op.get("via") == "hadd" else line.set, op["tag"], pyval(op["value"]))
+            else:
+                core.call(line.delete, op["tag"])
+            continue
+        if op["op"] == "set" and op["kind"] != "none" and op.get("tag") in unk:
+            # the tag holds a value for which no default datatype is documented (a boolean): whatever
+            # datatype it got is kept, so later values have no expectation until the tag is deleted
+            x = pyval(op["value"])
+            r = core.call(setattr, line, op["tag"], x) if op.get("via") == "attr" else core.call(line.set, op["tag"], x)
+            if r.ok:
+                acked[op["tag"]] = (x, None, None)
+            continue
         if op["op"] == "set" and op["kind"] == "none":
             # set(tag, None) is the documented other way of deleting a tag
             had = core.call(line.get, op["tag"])
             core.call(line.set, op["tag"], None)
             acked.pop(op["tag"], None)
+            unk.discard(op["tag"])
             if not (had.ok and had.value is None):
                 mydt.pop(op["tag"], None)
             st.count("probe.set_none")
@@ -295,7 +328,19 @@ def run(scn, st):
                 st.count("probe.string_with_control")
             if op["kind"] == "intarr":
                 st.count("probe.b_subtype_boundary")
-            r = core.call(line.set, tag, x)
+            if op.get("via") == "hadd" and line.record_type == "H":
+                # a further value under the same header tag: the expectations of a single value do not apply;
+                # what is written is still judged by the grammar of every tag (checkpoint)
+                st.count("probe.header_add")
+                r = core.call(line.add, tag, x)
+                fuzzy.add(tag)
+                acked[tag] = (x, dt, None)
+                continue
+            if op.get("via") == "attr":
+                st.count("probe.set_via_accessor")
+                r = core.call(setattr, line, tag, x)
+            else:
+                r = core.call(line.set, tag, x)
             st.state(digest([dt, repr(x), vlevel, cfg["connected"]]))
             if not r.ok:
                 st.count("oracle.set_outcome")
@@ -314,10 +359,28 @@ def run(scn, st):
             acked[tag] = (x, dt, rep)
             if dt:
                 mydt[tag] = dt
+            else:
+                unk.add(tag)
+            if rep is True:
+                # acknowledged and representable: readable at once, under the expected datatype
+                st.count("oracle.read_after_set")
+                rg = core.call(line.get, tag)
+                rd = core.call(line.get_datatype, tag)
+                if not rg.ok or not rd.ok:
+                    bad_r = rg if not rg.ok else rd
+                    raise core.Violation("read-after-set-failed",
+                                         "vlevel %d: after %s(%r, %r) the tag cannot be read: %s: %s" %
+                                         (vlevel, op.get("via", "set"), tag, x, bad_r.excname, str(bad_r.exc)[:200]),
+                                         dtype=dt, exc=bad_r.excname)
+                if rd.value != dt:
+                    raise core.Violation("datatype-after-set",
+                                         "vlevel %d: after %s(%r, %r) get_datatype answers %r, expected %r" %
+                                         (vlevel, op.get("via", "set"), tag, x, rd.value, dt), dtype=dt)
         elif op["op"] == "delete":
             had = core.call(line.get, op["tag"])
             core.call(line.delete, op["tag"])
             acked.pop(op["tag"], None)
+            unk.discard(op["tag"])
             if not (had.ok and had.value is None):
                 # delete() removes an *existing* tag (and forgets its datatype); a datatype declared for
                 # a tag which has no value yet stays declared, as documented for set_datatype
@@ -349,6 +412,18 @@ def checkpoint(w, line, g, acked, op, cfg, st, n):
                                          "vlevel %d: %r=%r cannot be represented as %s but field_to_s wrote %r" %
                                          (vlevel, tag, x, dt, r.value), dtype=dt, how="field_to_s")
     r = core.call(str, line)
+    if r.ok and "# INVALID" not in r.value:
+        # whatever was assigned: a tag which is written without a flag matches its datatype's grammar
+        st.count("oracle.every_written_tag_grammatical")
+        for f in r.value.split("\t")[1:]:
+            m = re.match(r"^(xa|xb|zz|Yq|oe|LN):(.*)$", f, re.S)
+            if m is None:
+                continue
+            m2 = re.match(r"^([AifZJHB]):(.*)$", m.group(2), re.S)
+            if m2 is None or not TAGRE[m2.group(1)].match(m2.group(2)):
+                raise core.Violation("silently-malformed",
+                                     "vlevel %d: str(line) emitted the field %r without raising or flagging" %
+                                     (vlevel, f), dtype=(m2.group(1) if m2 else "?"))
     if bad:
         if r.ok and "# INVALID" not in r.value:
             # silently malformed?  every bad tag must at least not look valid
